@@ -74,6 +74,11 @@ def families(tier: str) -> list[dict]:
     return fams
 
 
+def _random_traces(arg: tuple[int, int]) -> list[dict]:
+    from harness import tracecheck
+    return tracecheck.random_driver(arg[0], arg[1])
+
+
 def main(tier: str, seed: int) -> int:
     v = Verdict(PROP, tier, seed, 'model_checking')
     fams = families(tier)
@@ -81,6 +86,37 @@ def main(tier: str, seed: int) -> int:
         fams, seed, max_replay=220 if tier == 'quick' else 6000,
         nseeds=1 if tier == 'quick' else 2)
     reffam.report(v, agg, fams, CATS)
+    # ---- direction B: traces of drivers that know nothing about the
+    # specification (the repository's own training loop, random API drivers
+    # with resumes), recorded from outside and validated by TLC against
+    # spec/KfacTrace.tla (every event a KfacRef action + the logged
+    # observation; KfacRef's temporal properties on the accepted behaviour)
+    from harness import tracecheck
+    from harness.par import pmap
+    recs = tracecheck.run_repo_training_loop()
+    nrand = 14 if tier == 'quick' else 240
+    for lst in pmap(_random_traces, [(seed * 1000 + i, 40 if tier == 'quick'
+                                      else 70) for i in range(nrand)]):
+        recs += lst
+    tv = tracecheck.validate(recs, f's{seed}')
+    for rj in tv['rejected'][:8]:
+        ev = rj['event'] or {}
+        v.violation(
+            f'recorded execution is not a behaviour of KfacRef: event '
+            f'{rj["at"]} ({ev.get("act")}, arg {ev.get("arg")}) observed '
+            f'{ {k: ev.get(k) for k in ("steps", "chA", "chG", "accA", "accG", "hasInv", "ndec", "raised", "uniform")} } '
+            f'is not explained by any action after {rj["prefix"]} :: '
+            f'instance {rj["cfg"]}',
+            {'kind': 'trace', 'act': ev.get('act'),
+             'fields': [k for k in ('chA', 'chG', 'hasInv') if ev.get(k)]},
+            replay={'trace_cfg': rj['cfg'],
+                    'events': recs[rj['trace']]['events']})
+    v.coverage['traces_recorded_from_impl'] = tv['traces']
+    v.coverage['trace_events_validated'] = tv['events']
+    v.coverage['trace_unsupported'] = len(tv['skipped'])
+    v.coverage['states'] = v.coverage.get('states', 0) + tv['states']
+    v.coverage['transitions'] = v.coverage.get('transitions', 0) \
+        + tv['transitions']
     v.assumptions = [
         'usage assumption UsageOK: a step is only taken when gradients exist',
         'float comparison by relative error against an independent float64 '
@@ -92,6 +128,13 @@ def main(tier: str, seed: int) -> int:
 def replay(path: str) -> int:
     rec = json.load(open(path))
     rp = rec['replay']
+    if 'events' in rp:
+        from harness import tracecheck
+        tv = tracecheck.validate([{'cfg': rp['trace_cfg'],
+                                   'events': rp['events'],
+                                   'supported': True, 'why': ''}], 'rp')
+        print(json.dumps(tv['rejected'], indent=1, default=str)[:3000])
+        return 1 if tv['rejected'] else 0
     out = refreplay.replay(kaisa.Config(**rp['cfg']), rp['h'], rec['seed'])
     print(json.dumps(out['mismatches'], indent=1)[:3000])
     return 1 if out['mismatches'] else 0
